@@ -2,7 +2,8 @@
 
 PROP = {'modules': ['AmVerif.Props.C09', 'AmVerif.Lemmas.Fault'],
  'engines': [{'name': 'fault', 'quick': 120, 'thorough': 3000},
-             {'name': 'hr', 'tag': 'hr-recovery', 'first': 7, 'quick': 1, 'thorough': 200, 'shrink': False, 'classes': ['stale-after-hot-reload', 'sync-timeout']}],
+             {'name': 'hr', 'tag': 'hr-recovery', 'first': 7, 'quick': 1, 'thorough': 200, 'shrink': False, 'classes': ['stale-after-hot-reload', 'sync-timeout']},
+             {'name': 'src', 'tag': 'src-truncated', 'first': 201, 'quick': 2, 'thorough': 120, 'classes': ['truncated-member-read-as-prefix', 'short-read-zero-filled']}],
  'rule': 'one case = one scenario: a source with a script DAG, setup loads and ONE probed operation; the scenario is first run without fault to count the '
          'source reads and loader checkpoints of the probed operation, then for EVERY read index (NotFound, PermissionDenied, InvalidData, Interrupted, '
          'Other) and EVERY loader checkpoint (error, panic) the world is rebuilt from scratch (`reset`), the setup replayed, the single fault injected, '
